@@ -170,6 +170,30 @@ def _state(est, spec):
     return st
 
 
+def _judgeable(spec, X, y, nfin):
+    """Pre-flight for the enumerated block: do the preconditions that depend on the sequence the library picks
+    (candidates not exhausted, separated top-k subspace at every refresh) hold for these data?"""
+    if not sel.pcov_spectrum_guard(spec, X):
+        return False
+    try:
+        cold = sel.make(spec)
+        cold.n_to_select = nfin
+        tr = rt.GreedyTrace(cold)
+        sel.fit(cold, X, y, spec)
+        tr.detach()
+    except Exception:  # noqa: BLE001  the judged run will report it
+        return True
+    seq = [e["idx"] for e in tr.commits()]
+    if sel.first_repeat(seq) is not None or sel.exhausted(spec, X, y, seq[:-1]):
+        return False
+    if spec["cls"] not in sel.FPS_FAMILY:
+        re = spec["kw"].get("recompute_every")
+        for r in ([0] if re == 0 else range(nfin)):
+            if not sel.pi_oracle(spec, X, y, seq[:r])[1]:
+                return False
+    return True
+
+
 def run(case, j):
     spec, X, y, links = case["spec"], case["X"], case["y"], case["links"]
     axis = sel.axis_of(spec)
@@ -177,6 +201,15 @@ def run(case, j):
     fam_fps = spec["cls"] in sel.FPS_FAMILY
     nfin = links[-1]["resolved"]
     re = spec["kw"].get("recompute_every")
+    if case["exhaustive"]:
+        # every schedule of the enumerated block is judged: data on which a precondition fails are re-drawn
+        rr = np.random.default_rng([nfin, len(links), X.shape[0], X.shape[1]])
+        for _ in range(30):
+            if _judgeable(spec, X, y, nfin):
+                break
+            X = _matrix(rr, X.shape[0], X.shape[1], case["kind"])
+            y = None if y is None else gens.target(rr, X, "linear", 1)
+            j.note("enumerated_block_redraws")
     j.tag(f"{spec['dir']}:{spec['cls']}" + (f":re{re}" if re is not None else ""), f"data:{case['kind']}", f"links:{len(links)}", "exhaustive" if case["exhaustive"] else "sampled")
     sel.require(sel.pcov_spectrum_guard(spec, X), "spectrum-near-1e-12-cut")
 
